@@ -14,4 +14,5 @@ for c in ${ONLY:-af93168 509bc53 e912a11 7203897 3983467 e9eab0f c0d9a18 dff15cb
   if echo "$out" | grep -q "^VIOLATION"; then echo "$c $prop detected [$rules]"; else echo "$c $prop MISSED"; rc=1; fi
   git -C /repo checkout -- .
 done
+git -C /verif checkout -- evidence  # evidence written while a defect was re-introduced must not be committed
 exit $rc
